@@ -34,6 +34,12 @@ def gen(ck, n):
             b = ck.rng.choice(p["blocks"])
             b["stmts"].insert(ck.rng.randint(0, len(b["stmts"])), {"op": "unreach"})
         ps.append(p)
+    for i in range(max(20, n // 10)):       # loops with two back edges (both insertion orders)
+        p = proggen.program(ck.rng, n + i + 1, shape="twolatch", asserts=True, nints=3, nbools=0, profile="c17", nstmts=(0, 2))
+        outs = sorted(ck.rng.sample([1, 2, 3], ck.rng.randint(0, 2)))
+        p["fn"] = {"name": "f", "in": [], "out": outs}
+        p["outs"] = outs
+        ps.append(p)
     return ps
 
 
@@ -44,7 +50,7 @@ def gen_directed(seed, n, first_id):
     rng = random.Random(seed)
     ps = []
     for i in range(n):
-        shape = rng.choice(["diamond", "diamond", "loop", "loop", "nested", "twoloops", "entryloop", "irreducible", "selfloop"])
+        shape = rng.choice(["diamond", "diamond", "loop", "loop", "nested", "twoloops", "entryloop", "irreducible", "selfloop", "twolatch"])
         p = proggen.program(rng, first_id + i, shape=shape, asserts=True, nints=3, nbools=0, profile="c17", nstmts=(0, 2))
         nid = 1 + max([s["id"] for b in p["blocks"] for s in b["stmts"] if s["op"] == "assert"] or [0])
         for blk in [p["exit"], rng.randint(1, len(p["blocks"]))]:
